@@ -154,10 +154,10 @@ CLAIMED = {
             "(v_i, G(t) v_j) for ALL i, j (no symmetry assumed; T in {1, 2}, Ntrunc = 2 unrolled). Corr.GEVP (sort by eigenvalue; T = 4, N = 3, t0 in "
             "{0, 1}, patterns of undefined timeslices enumerated): the result is arranged [state][time]; entries are undefined exactly for "
             "t <= t0 and for undefined timeslices, and otherwise row `state` of the solver applied to (central values of G(t), central values "
-            "of G(t0)).",
+            "of G(t0)); with sort=None the single problem G(ts) against G(t0) is solved, ValueError iff ts <= t0 or the timeslice is undefined.",
             "DESIGN.md section 6 C16",
             "Assumed: numpy / scipy return eigenvalues in ascending order and satisfy the defining equations of the decompositions. NOT "
-            "decided: Corr.GEVP with sort=None / sort='Eigenvector' (_sort_vectors), the symmetrisation branch, Eigenvalue / projected, "
+            "decided: Corr.GEVP with sort='Eigenvector' (_sort_vectors), the symmetrisation branch, Eigenvalue / projected, "
             "the Obs-valued branch, exact-exponential spectra, matrix_pencil_method (numerical statements outside the reach of contracts)."),
     "C17": ("symbolic execution of the configuration-selection statements of read_rwms (statement slice, filter / map summaries, ghost induction) and of check_idl + z3; native execution of the same slice",
             "Proof for read_rwms (one replica, one factor; lengths, configuration numbers, r_start / r_stop / r_step symbolic): the stored "
